@@ -116,3 +116,31 @@ def _domain_validate_matrix(n):
 
 
 DOMAIN = {F + '_check_conns': _domain_check_conns, F + '_validate_matrix': _domain_validate_matrix}
+
+
+# ---- segment of NodeExistence.get_effective_settings: excluded pairs remapped to the nodes that exist (C11, C09) ------
+CLASSES = dict(globals().get('CLASSES', {}))
+CLASSES['MatrixGenSettingsX'] = {}
+PAIR = 'Tuple[Int,Int]'
+CONTRACTS[F + 'NodeExistence.get_effective_settings@excluded-remap'] = dict(
+    properties=['C11', 'C09'],
+    types={'self': 'Ref', 'settings': 'Ref[MatrixGenSettingsX]'},
+    start_at='excluded = []',
+    stop_before='effective_settings = MatrixGenSettings(',
+    live={'src_idx_map': 'Dict[Int,Int]', 'tgt_idx_map': 'Dict[Int,Int]'},
+    ghost={'excl_in': f'List[{PAIR}]'},
+    locals={'excluded': f'List[{PAIR}]'},
+    post_locals=['excluded'],
+    calls={'settings.get_excluded_indices': dict(params=[], returns=f'List[{PAIR}]', modifies=[], ensures=['result == excl_in'])},
+    loops={'for i_src, i_tgt in settings.get_excluded_indices()': dict(index='k', invariant={
+        'kept-so-far': f"forall('p:{PAIR}', (p in excluded) == exists(e, 0, k, excl_in[e][0] in src_idx_map and excl_in[e][1] in tgt_idx_map and p[0] == src_idx_map[excl_in[e][0]] and p[1] == tgt_idx_map[excl_in[e][1]]))",
+    })},
+    ensures={
+        # every excluded pair whose two nodes exist in this pattern stays excluded (under the effective indices), and
+        # nothing else becomes excluded
+        'excluded-pairs-of-existing-nodes-kept-exactly': ('property',
+            f"forall('p:{PAIR}', (p in final_excluded) == exists(e, 0, len(excl_in), excl_in[e][0] in src_idx_map and excl_in[e][1] in tgt_idx_map and p[0] == src_idx_map[excl_in[e][0]] and p[1] == tgt_idx_map[excl_in[e][1]]))"),
+    },
+    modifies=[],
+    no_frame=True,
+)
